@@ -232,7 +232,20 @@ func buildRepEvent(lvl byte, lname string, s string) *repEvent {
 	// the language is given by one option or, for a share of the reports, by several stacked ones of which the last
 	// decides (an earlier option of another language must leave no trace)
 	opts := []report.ReportOptionsFunc{opt}
-	switch h := len(s) + len(lname); h % 4 {
+	switch h := len(s) + len(lname); h % 5 {
+	case 4:
+		// the options come from a longer list of which a shorter prefix was used for another report before: constructors
+		// must not write into the caller's list
+		if lvl != 'B' {
+			all := make([]report.ReportOptionsFunc, 0, 4)
+			all = append(all, report.WithOptionsLanguage(langTags["ja"]), opt)
+			if lvl == 'T' {
+				report.NewTemporal(o.t, all[:1]...)
+			} else {
+				report.NewEnvironmental(o.e, all[:1]...)
+			}
+			opts = all
+		}
 	case 1:
 		opts = []report.ReportOptionsFunc{report.WithOptionsLanguage(langTags["ja"]), opt}
 	case 2:
